@@ -711,7 +711,7 @@ def rule_query(repo, tier):
 
 
 def _rules_core(repo, tier):
-    return [rule_state(repo, tier), rule_query(repo, tier), rule_latch(repo, tier), rule_reset(repo, tier), rule_budget(repo, tier), rule_pat(repo, tier), rule_drv(repo, tier),
+    return [rule_state(repo, tier), rule_query(repo, tier), __import__('sa.mode', fromlist=['x']).rule_argattr(repo, 'C20.DRVCONF', ['pypose.module.mpc', 'pypose.module.icp']), __import__('sa.mode', fromlist=['x']).rule_sharedstate(repo, 'C20.DRVSHARED', ['pypose.module.mpc', 'pypose.module.icp']), rule_latch(repo, tier), rule_reset(repo, tier), rule_budget(repo, tier), rule_pat(repo, tier), rule_drv(repo, tier),
             rule_clause(repo, tier)]
 
 
